@@ -16,7 +16,13 @@ Monitor shape: independent reference / laws from the statement evaluated next to
 * cylinder / bounding_primitive: containment in the primitive's own frame.
 
 Input that does not span the dimension may be refused with an ordinary exception; a returned
-result is still judged for containment.
+result is still judged for containment, and what is answered for a flat shape at scale 1 about the
+origin must also be answered for the same shape scaled / translated.
+
+Round 4 classes: extreme points with a twin closer than tol.merge; points near a common sphere that
+cover a cap of it; the hull by every option value convex_hull offers (joggle ...); primitives
+(Box, Cylinder, Capsule, Sphere, Extrusion) placed, mirrored and re-scaled; a capsule (two times
+~1000 co-spherical vertices) far from the origin; flat input at every placement, also as a mesh.
 """
 
 from __future__ import annotations
@@ -32,7 +38,10 @@ RULE = (
     "point clouds of classes random / gaussian / lattice / clustered / flat (aspect 1e-4) / cube "
     "corners / sphere samples / small n (4-7 points) / designed 2- and 3-point support, in 3-D and "
     "2-D, under scale 1e-4, 1, 1e4 and translation 0 / 1e5; each as raw array, PointCloud and "
-    "Trimesh (its hull), plus closed generator meshes and radially symmetric creation meshes.  One "
+    "Trimesh (its hull), plus closed generator meshes and radially symmetric creation meshes; clouds "
+    "with extreme points doubled at 1e-10 .. 4e-9, caps of a sphere with radial noise 1e-8 / 1e-7, the hull "
+    "under 10 qhull option values, 5 kinds of primitive x 4 placement histories (rigid, two mirrors, "
+    "re-scaled), capsules 3e3 .. 2e5 from the origin, 8 kinds of flat input x every transform.  One "
     "case = one (query, object); distinct = distinct (query, point bytes); non-trivial = the input "
     "spans its dimension and has more points than the dimension + 1 or is judged for minimality."
 )
@@ -130,17 +139,59 @@ def base_cloud(rng, cls, d=3):
         Q = rng.normal(size=(int(rng.integers(d + 2, 40)), d))
         Q = Q / np.linalg.norm(Q, axis=1, keepdims=True) * rng.random((len(Q), 1)) * 0.7
         return np.vstack([T, Q]) @ rand_rot(rng, d).T
+    if cls == "near_dup_extreme":
+        # a cloud of ordinary size in which some extreme points have a twin closer than tol.merge
+        # (1e-8, absolute) yet far above rounding and tol.zero: scanned parts, seams of a mesh
+        # built with process=False.  The cloud clearly spans its dimension.
+        kind = int(rng.integers(3))
+        if kind == 0:
+            P = np.array(np.meshgrid(*([[-1.0, 1.0]] * d), indexing="ij")).reshape(d, -1).T.copy()
+            P = P @ rand_rot(rng, d).T if rng.random() < 0.5 else P
+        elif kind == 1:
+            P = rng.normal(size=(int(rng.integers(d + 3, 40)), d))
+        else:
+            P = rng.random((int(rng.integers(d + 3, 40)), d)) * 2 - 1
+        twins = []
+        for _ in range(int(rng.integers(1, 5))):
+            u = rng.normal(size=d)
+            i = int(np.argmax(P @ u))  # an extreme point
+            v = rng.normal(size=d)
+            v -= v @ u / (u @ u) * u  # sideways: the twin is (nearly always) extreme as well
+            v /= np.linalg.norm(v)
+            twins.append(P[i] + v * float(rng.choice([4e-9, 1e-9, 1e-10])))
+        return np.vstack([P, np.array(twins)])
+    if cls == "cap":
+        # points within 1e-8 .. 1e-7 (relative) of a common sphere, covering only a cap of it
+        # (a dome, a dish, a lens; an arc in 2-D): the minimal ball is NOT that sphere
+        n = int(rng.integers(d + 3, 40))
+        a = np.radians(float(rng.uniform(25.0, 70.0)))
+        if d == 3:
+            z = 1 - rng.random(n) * (1 - np.cos(a))
+            phi = rng.random(n) * 2 * np.pi
+            sxy = np.sqrt(1 - z * z)
+            P = np.column_stack([sxy * np.cos(phi), sxy * np.sin(phi), z])
+        else:
+            ang = rng.uniform(-a, a, size=n)
+            P = np.column_stack([np.cos(ang), np.sin(ang)])
+        P = P * (1 + rng.normal(size=(n, 1)) * float(rng.choice([1e-8, 1e-7])))
+        return P @ rand_rot(rng, d).T
     raise ValueError(cls)
 
 
-CLOUD_CLASSES = ("random", "gaussian", "lattice", "lattice_full", "clustered", "flat", "cube_corners", "sphere", "small_n", "support2", "support3")
+CLOUD_CLASSES = ("random", "gaussian", "lattice", "lattice_full", "clustered", "flat", "cube_corners", "sphere", "small_n", "support2", "support3",
+                 "near_dup_extreme", "cap")
 
 
 def spans(P):
-    """Does the cloud span its dimension clearly (relative singular value >= 1e-9)?"""
+    """
+    Does the cloud span its dimension clearly: relative singular value >= 1e-9, and above what
+    the rounding of the coordinates alone produces (a planar cloud moved to 3e6 has a "thickness"
+    of a few 1e-10 that is not a third dimension).
+    """
     Q = P - P.mean(axis=0)
     sv = np.linalg.svd(Q, compute_uv=False)
-    return len(P) > P.shape[1] and sv[-1] > 1e-9 * max(sv[0], 1e-300)
+    floor = 64 * np.finfo(np.float64).eps * float(np.abs(P).max()) * np.sqrt(len(P))
+    return len(P) > P.shape[1] and sv[-1] > 1e-9 * max(sv[0], 1e-300) and sv[-1] > floor
 
 
 class Ctx:
@@ -154,15 +205,25 @@ class Ctx:
         self.tol = 1e-7 * self.ext + 1e-11 * self.off
         self.full = bool(spans(self.P))
         self.tiny = False
+        self.neardup = False
+        self.base_ok = ()  # query families the library answered for this shape at s=1, t=0
+        self.simplices = None
+        self.extra = {}  # merged into every witness (what replay needs beyond the points)
         if d == 3 and self.full:
             # classification only (never used to judge): the facets qhull produces for this input
             try:
                 from scipy.spatial import ConvexHull
 
-                h = ConvexHull(self.P, qhull_options="QbB Pp Qt")
+                # (on centred points, as convex_hull does since 0423125)
+                h = ConvexHull(self.P - self.P.mean(axis=0), qhull_options="QbB Pp Qt")
                 tri = self.P[h.simplices]
                 cr = np.linalg.norm(np.cross(tri[:, 1] - tri[:, 0], tri[:, 2] - tri[:, 0]), axis=1)
                 self.tiny = bool(cr.min() < 1e-12)
+                self.simplices = np.asarray(h.simplices, dtype=np.int64)
+                # two extreme points closer than tol.merge (1e-8, absolute)
+                from scipy.spatial import cKDTree
+
+                self.neardup = len(cKDTree(self.P[h.vertices]).query_pairs(1e-8)) > 0
             except Exception:  # noqa
                 self.tiny = False
 
@@ -171,6 +232,9 @@ class Ctx:
 
     def wit(self, **kw):
         w = {"points": self.P.tolist(), "cls": self.cls, "xf": self.xf, "d": self.d}
+        if self.base_ok:
+            w["base_ok"] = list(self.base_ok)
+        w.update(self.extra)
         w.update(kw)
         return w
 
@@ -190,9 +254,18 @@ def _v(run, cx, key, what, wit):
     """
     if getattr(cx, "tiny", False) and _family(key) in ("hull", "obb", "sphere", "cylinder"):
         key = "%s class=hull_facet_cross_below_10x_tol_zero sym=facets_dropped_or_consequence" % _family(key)
+    elif getattr(cx, "neardup", False) and _family(key) in ("hull", "obb", "sphere", "cylinder", "primitive", "history"):
+        # an ordinary cloud with two extreme points closer than tol.merge: one key per family and
+        # symptom, whatever the route (the hull is built by the same function for all of them)
+        sym = key.split(" sym=", 1)[1] if " sym=" in key else "other"
+        fn = " fn=" + key.split(" fn=", 1)[1].split(" ", 1)[0] if " fn=" in key else ""
+        key = "%s%s class=extreme_points_closer_than_tol_merge sym=%s" % (_family(key), fn, sym)
     elif not cx.full and _family(key) == "obb" and " sym=" in key:
         # input that does not span the dimension takes the coplanar branch whatever the route
         key = "obb input=not_spanning %s sym=%s" % (cx.klass(), key.split(" sym=", 1)[1])
+    elif not cx.full and _family(key) in ("sphere", "cylinder") and " sym=" in key:
+        # likewise: flat input is measured from the same (hull) points whatever the route
+        key = "%s input=not_spanning %s sym=%s" % (_family(key), cx.klass(), key.split(" sym=", 1)[1])
     run.violation(key, what, wit)
 
 
@@ -265,13 +338,21 @@ def check_hull(run, cx, hull, route, refused_ok=False):
         Nn = -Nn
     good = L > 1e-12 * cx.ext * cx.ext
     run.state("hull_zero_area_faces", int((~good).sum()) > 0)
-    Dist = np.einsum("pfk,fk->pf", P[:, None, :] - V[F[good][:, 0]][None], Nn[good])
-    worst = float(Dist.max()) if Dist.size else 0.0
-    run.state("hull_depth_band", "out>tol" if worst > cx.tol else "ok")
-    if worst > cx.tol:
+    # the plane of a sliver facet (two extreme points close together, long edges) is known only
+    # as well as its cross product: rounding of the coordinates (eps * |v|) tilts the normal by
+    # eps * |v| * edge / |cross| and moves the plane by that times the extent at the far end
+    # With the joggle option the facets were built on coordinates moved by 3e4 x qhull's
+    # roundoff (~1e-11 x extent, x10 per retry): a facet thinner than that has no orientation.
+    delta = 1e-9 * cx.ext if "option=QJ" in route else 16 * np.finfo(np.float64).eps * (cx.off + cx.ext)
+    tolf = np.full(len(F), cx.tol)
+    tolf[good] += delta * cx.ext * cx.ext / L[good]
+    Dist = np.einsum("pfk,fk->pf", P[:, None, :] - V[F[good][:, 0]][None], Nn[good]) - tolf[good][None, :]
+    worst = float(Dist.max()) if Dist.size else -1.0
+    run.state("hull_depth_band", "out>tol" if worst > 0 else "ok")
+    if worst > 0:
         pi, fi = np.unravel_index(int(Dist.argmax()), Dist.shape)
         _v(run, cx, key + " sym=input_point_outside", "an input point lies outside a hull face plane",
-                      cx.wit(route=route, point=P[pi].tolist(), outside_by=worst, tol=cx.tol))
+                      cx.wit(route=route, point=P[pi].tolist(), outside_by=worst + float(tolf[good][fi]), tol=float(tolf[good][fi])))
     # 5. convex: the oracle's own adjacent-face projections
     if closed:
         owner = {}
@@ -282,7 +363,7 @@ def check_hull(run, cx, hull, route, refused_ok=False):
         for (a, b), (fi, _o) in owner.items():
             fj, opp = owner[(b, a)]
             if good[fi] and good[fj]:
-                worstp = max(worstp, float(Nn[fi] @ (V[opp] - V[a])))
+                worstp = max(worstp, float(Nn[fi] @ (V[opp] - V[a])) - (tolf[fi] - cx.tol))
         if worstp > cx.tol:
             _v(run, cx, key + " sym=not_convex", "a neighbouring face's opposite vertex lies above a face plane", cx.wit(route=route, by=worstp))
         # the library's projections on the same pairs
@@ -297,7 +378,7 @@ def check_hull(run, cx, hull, route, refused_ok=False):
                 s0, s1 = set(F[f0].tolist()), set(F[f1].tolist())
                 sh = sorted(s0 & s1)
                 un = sorted(s1 - s0)
-                if len(sh) != 2 or len(un) != 1 or not (good[f0] and good[f1]):
+                if len(sh) != 2 or len(un) != 1 or not (good[f0] and good[f1]) or max(tolf[f0], tolf[f1]) > 2 * cx.tol:
                     okrow[r] = False
                     continue
                 n0 = Nn[f0]
@@ -312,7 +393,7 @@ def check_hull(run, cx, hull, route, refused_ok=False):
                               cx.wit(route=route, observed=float(lib[r]), expected=float(mine[r])))
             conv = bool(hull.is_convex)
             run.count("is_convex_on_hulls")
-            if not conv and worstp <= 0.1 * cx.tol and not (~good).any():
+            if not conv and worstp <= 0.1 * cx.tol and not (~good).any() and (tolf <= 2 * cx.tol).all():
                 _v(run, cx, "hull fn=is_convex sym=hull_reported_non_convex %s" % cx.klass(), "is_convex is False on a convex hull", cx.wit(route=route, worst_projection=worstp))
         except Exception as e:  # noqa
             _v(run, cx, "hull fn=adjacency_projections sym=exception:%s %s" % (type(e).__name__, cx.klass()), "raised %r" % (e,), cx.wit(route=route))
@@ -342,6 +423,10 @@ def check_hull_points(run, cx):
             run.skip("hull_points refused input that does not span the dimension")
         return
     run.case(cx.tag("hull_points"), P, nontrivial=cx.full and len(P) > d + 1)
+    if not cx.full:
+        # as for convex_hull: the statement speaks of sets that span the dimension
+        run.skip("hull_points of a degenerate cloud returned: not judged")
+        return
     rows = {r.tobytes() for r in P}
     if H.ndim != 2 or H.shape[1] != d:
         _v(run, cx, key + " sym=wrong_shape", "result is not (k, d)", cx.wit(shape=list(H.shape)))
@@ -394,8 +479,9 @@ def check_aabb(run, cx, obj, route):
         _v(run, cx, key + " sym=exception:%s" % type(e).__name__, "axis aligned bounds raised %r" % (e,), cx.wit(route=route))
 
 
-def judge_obb(run, cx, M, extents, route, Q=None):
-    """M maps the points into the box frame; extents reported."""
+def judge_obb(run, cx, M, extents, route, Q=None, exact=True):
+    """M maps the points into the box frame; extents reported.  exact=False (analytic primitives
+    whose box is derived from their parameters, not their facets): containment and rigidity only."""
     d = cx.d
     P = cx.P if Q is None else Q
     key = "obb route=%s %s" % (route, cx.klass())
@@ -414,13 +500,15 @@ def judge_obb(run, cx, M, extents, route, Q=None):
     run.state("obb_branch", (route, "flat" if extents.min() < 1e-3 * extents.max() else "full"))
     if (np.abs(q) > extents / 2 + tol).any():
         _v(run, cx, key + " sym=not_containing", "a transformed point lies outside the box of the reported extents", cx.wit(route=route, by=float((np.abs(q) - extents / 2).max())))
+    if not exact:
+        return
     if np.abs(lo + hi).max() / 2 > tol:
         _v(run, cx, key + " sym=not_centred", "the transformed points' bounding box is not centred at the origin", cx.wit(route=route, centre=((lo + hi) / 2).tolist()))
     if np.abs((hi - lo) - extents).max() > tol:
         _v(run, cx, key + " sym=extents_differ", "reported extents differ from the extents of the transformed points", cx.wit(route=route, observed=extents.tolist(), expected=(hi - lo).tolist()))
 
 
-def check_obb(run, cx, obj, route):
+def check_obb(run, cx, obj, route, exact=True):
     from trimesh import bounds
 
     run.case(cx.tag("obb:" + route), cx.P, nontrivial=cx.full and len(cx.P) > cx.d + 1)
@@ -437,10 +525,15 @@ def check_obb(run, cx, obj, route):
     except Exception as e:  # noqa
         if cx.full:
             _v(run, cx, "obb route=%s %s sym=exception:%s" % (route, cx.klass(), type(e).__name__), "oriented bounds raised %r on a full-dimensional input" % (e,), cx.wit(route=route))
+        elif "obb" in cx.base_ok:
+            # the same flat shape got its box at s=1, t=0: the refusal depends on the placement
+            # only, and the quantifier includes scaled / translated input
+            _v(run, cx, "obb route=%s %s sym=exception_only_when_moved:%s" % (route, cx.klass(), type(e).__name__),
+               "oriented bounds raised %r on a flat input whose box is computed at scale 1 about the origin" % (e,), cx.wit(route=route))
         else:
             run.skip("oriented bounds refused input that does not span the dimension")
         return
-    judge_obb(run, cx, M, ex, route)
+    judge_obb(run, cx, M, ex, route, exact=exact)
 
 
 def check_apply_obb(run, cx, obj, route):
@@ -449,14 +542,18 @@ def check_apply_obb(run, cx, obj, route):
     key = "obb route=%s.apply_obb %s" % (route, cx.klass())
     run.case(cx.tag("apply_obb:" + route), cx.P, nontrivial=cx.full)
     try:
-        _M0, ex0 = bounds.oriented_bounds(obj)
+        # the extents the library reports for the very object apply_obb is called on (a copy of a
+        # primitive is rebuilt from its parameters; in a near tie it may get the other box)
         c = obj.copy()
+        _M0, ex0 = bounds.oriented_bounds(c)
         before = np.asarray(c.vertices, dtype=np.float64).copy()
         M = np.asarray(c.apply_obb(), dtype=np.float64)
         after = np.asarray(c.vertices, dtype=np.float64)
     except Exception as e:  # noqa
         if cx.full:
             _v(run, cx, key + " sym=exception:%s" % type(e).__name__, "apply_obb raised %r" % (e,), cx.wit(route=route))
+        elif "obb" in cx.base_ok:
+            _v(run, cx, key + " sym=exception_only_when_moved:%s" % type(e).__name__, "apply_obb raised %r on a flat input whose box is computed at scale 1 about the origin" % (e,), cx.wit(route=route))
         return
     for sym in rigid_defects(M, 3):
         _v(run, cx, key + " sym=transform_" + sym, "apply_obb returned a non-rigid matrix", cx.wit(route=route))
@@ -490,12 +587,33 @@ def support_class(mb, d):
     return str(k)
 
 
+def fit_sphere(P):
+    """Algebraic least-squares sphere through P (classification only): centre, radius, max |dist - r|."""
+    P = np.asarray(P, dtype=np.float64)
+    o = P.mean(axis=0)
+    Q = P - o
+    A = np.column_stack([2 * Q, np.ones(len(Q))])
+    try:
+        x = np.linalg.lstsq(A, (Q * Q).sum(axis=1), rcond=None)[0]
+    except np.linalg.LinAlgError:
+        return o, np.inf, np.inf
+    c = x[:-1]
+    r2 = x[-1] + c @ c
+    if not r2 > 0:
+        return o, np.inf, np.inf
+    r = float(np.sqrt(r2))
+    return c + o, r, float(np.abs(np.linalg.norm(Q - c, axis=1) - r).max())
+
+
 def check_sphere(run, cx, obj, route, mb=None, minimal=True):
     from trimesh import nsphere
 
     P, d = cx.P, cx.d
-    mb = mb or W.min_ball(P, rng=run.rng)
-    scls = support_class(mb, d)
+    if mb is None and not minimal and len(P) > 500:
+        scls = "not_judged"  # containment only: the oracle's ball is not needed
+    else:
+        mb = mb or W.min_ball(P, rng=run.rng)
+        scls = support_class(mb, d)
     key = "sphere route=%s %s" % (route, cx.klass())
     try:
         if route in ("array", "array2d"):
@@ -507,6 +625,8 @@ def check_sphere(run, cx, obj, route, mb=None, minimal=True):
     except Exception as e:  # noqa
         if cx.full:
             _v(run, cx, key + " sym=exception:%s" % type(e).__name__, "bounding sphere raised %r on a full-dimensional input" % (e,), cx.wit(route=route))
+        elif "sphere" in cx.base_ok:
+            _v(run, cx, key + " sym=exception_only_when_moved:%s" % type(e).__name__, "bounding sphere raised %r on a flat input that has one at scale 1 about the origin" % (e,), cx.wit(route=route))
         else:
             run.skip("bounding sphere refused input that does not span the dimension")
         return
@@ -524,6 +644,14 @@ def check_sphere(run, cx, obj, route, mb=None, minimal=True):
     if scls in ("2", "3", "4"):
         run.count("sphere_minimality_judged_support_%s_%s" % (scls, cx.klass()))
         if r > mb["radius"] * (1 + 1e-6) + tol:
+            fc, fr, fe = fit_sphere(P)
+            if fe < 1e-5 * fr and abs(r - fr) < 1e-5 * fr and mb["radius"] < fr * (1 - 1e-3):
+                # the points are (nearly) on a common sphere, cover only a cap of it, and that
+                # sphere is what came back: the shortcut for co-spherical input, not the search
+                run.violation(key + " class=near_cospherical_cap sym=fitted_sphere_returned_not_minimal",
+                              "points near a common sphere that cover a cap of it: the common sphere is returned, the minimal enclosing sphere is smaller",
+                              cx.wit(route=route, radius=r, minimal_radius=mb["radius"], fitted_radius=fr, excess_relative=r / mb["radius"] - 1, support=mb["support"]))
+                return
             run.violation(key + " sym=not_minimal support=%s" % scls,
                           "the bounding sphere is larger than the minimal enclosing sphere",
                           cx.wit(route=route, radius=r, minimal_radius=mb["radius"], excess_relative=r / mb["radius"] - 1, support=mb["support"]))
@@ -575,25 +703,27 @@ def check_cylinder(run, cx, obj, route):
     except Exception as e:  # noqa
         if cx.full:
             _v(run, cx, "cylinder route=%s sym=exception:%s" % (route, type(e).__name__), "bounding cylinder raised %r on a full-dimensional input" % (e,), cx.wit(route=route))
+        elif "cylinder" in cx.base_ok:
+            _v(run, cx, "cylinder route=%s sym=exception_only_when_moved:%s" % (route, type(e).__name__), "bounding cylinder raised %r on a flat input that has one at scale 1 about the origin" % (e,), cx.wit(route=route))
         else:
             run.skip("bounding cylinder refused input that does not span the dimension")
         return
     judge_cylinder(run, cx, Tm, r, h, route)
 
 
-def check_primitive(run, cx, obj, route):
+def check_primitive(run, cx, obj, route, exact=True):
     run.case(cx.tag("primitive:" + route), cx.P, nontrivial=cx.full and len(cx.P) > 4)
     try:
         p = obj.bounding_primitive
         name = type(p).__name__
     except Exception as e:  # noqa
         if cx.full:
-            _v(run, cx, "primitive route=%s sym=exception:%s" % (route, type(e).__name__), "bounding_primitive raised %r" % (e,), cx.wit(route=route))
+            _v(run, cx, "primitive route=%s sym=exception:%s" % (route.split(":")[0], type(e).__name__), "bounding_primitive raised %r" % (e,), cx.wit(route=route))
         return
     run.state("bounding_primitive_kind", name)
     r2 = route + ".bounding_primitive"
     if name == "Box":
-        judge_obb(run, cx, np.linalg.inv(np.asarray(p.primitive.transform)), np.asarray(p.primitive.extents), r2)
+        judge_obb(run, cx, np.linalg.inv(np.asarray(p.primitive.transform)), np.asarray(p.primitive.extents), r2, exact=exact)
     elif name == "Sphere":
         c, r = np.asarray(p.primitive.center, dtype=np.float64), float(p.primitive.radius)
         far = float(np.linalg.norm(cx.P - c, axis=1).max())
@@ -659,10 +789,41 @@ def oracle_selfcheck(run):
         run.inconclusive("Welzl oracle disagrees with brute force on %d small clouds" % bad)
 
 
-def run_cloud3(run, P, cls, xf, heavy):
+def hull_options():
+    """
+    Option values `convex_hull(points, qhull_options=...)` offers (strings and the QhullOptions
+    helper) that ask for the same thing - the hull of the input - by another numerical route.
+    """
+    from trimesh.convex import QhullOptions
+
+    return [
+        ("QJ", "QJ"),
+        ("QJ", QhullOptions(QJ=True, Qt=True)),
+        ("QJ", QhullOptions(QJ=True, Pp=True, QbB=True)),
+        ("None", None),
+        ("Qt", QhullOptions(Qt=True)),
+        ("Qs", QhullOptions(QbB=True, Pp=True, Qt=True, Qs=True)),
+        ("Qx", QhullOptions(Qt=True, Qx=True)),
+        ("Qc", QhullOptions(QbB=True, Qt=True, Qc=True)),
+        ("Qv", "Qt Qv"),
+        ("QR0", QhullOptions(Qt=True, QR0=True)),
+    ]
+
+
+def flat_mesh(P):
+    """A Trimesh over points that do not span 3-D: a fan (one triangle for three points)."""
+    import trimesh
+
+    n = len(P)
+    F = np.array([[0, i, i + 1] for i in range(1, n - 1)], dtype=np.int64)
+    return trimesh.Trimesh(vertices=P.copy(), faces=F, process=False)
+
+
+def run_cloud3(run, P, cls, xf, heavy, options=0, base_ok=()):
     import trimesh
 
     cx = Ctx(P, cls, xf, 3)
+    cx.base_ok = tuple(base_ok)
     run.count("clouds_3d")
     run.state("cloud_class", (cls, xf, 3, cx.full))
     objs = [("array", None)]
@@ -689,6 +850,28 @@ def run_cloud3(run, P, cls, xf, heavy):
             continue
         check_hull(run, cx, h, route)
         hull = hull or h
+    # --- hull by the other option values the function offers
+    if cx.full and options:
+        opts = hull_options()
+        if options < len(opts):
+            # joggle first, then a random choice of the others
+            opts = opts[:1] + [opts[int(i)] for i in run.rng.choice(np.arange(1, len(opts)), size=options - 1, replace=False)]
+        for oname, oval in opts:
+            route = "array:option=" + oname
+            run.state("hull_option", oname)
+            try:
+                h = trimesh.convex.convex_hull(P.copy(), qhull_options=oval)
+            except Exception as e:  # noqa
+                _v(run, cx, "hull route=%s 3d sym=exception:%s" % (route, type(e).__name__), "convex_hull(qhull_options=%r) raised %r on a full-dimensional cloud" % (oval, e), cx.wit(route=route))
+                continue
+            check_hull(run, cx, h, route)
+    # --- hull of a mesh whose vertices are the cloud as it is (process=False: nothing merged)
+    if cx.full and cx.simplices is not None and (cx.neardup or options):
+        try:
+            raw = trimesh.Trimesh(vertices=P.copy(), faces=cx.simplices.copy(), process=False)
+            check_hull(run, cx, raw.convex_hull, "Trimesh:raw")
+        except Exception as e:  # noqa
+            _v(run, cx, "hull route=Trimesh:raw 3d sym=exception:%s" % type(e).__name__, "mesh.convex_hull raised %r" % (e,), cx.wit(route="Trimesh:raw"))
     check_hull_points(run, cx)
     if hull is not None:
         # the hull as a Trimesh whose vertices are the cloud: every query again on the mesh
@@ -714,6 +897,18 @@ def run_cloud3(run, P, cls, xf, heavy):
             check_cylinder(run, cx, obj, route)
             if route != "array":
                 check_primitive(run, cx, obj, route)
+    if not cx.full and len(P) >= 3:
+        # flat input as a mesh: one triangle, a planar fan
+        try:
+            fm = flat_mesh(P)
+        except Exception as e:  # noqa
+            fm = None
+            run.skip("flat mesh construction raised %s" % type(e).__name__)
+        if fm is not None:
+            check_aabb(run, cx, fm, "Trimesh")
+            check_obb(run, cx, fm, "Trimesh")
+            check_obb(run, cx, fm, "Trimesh.primitive")
+            check_apply_obb(run, cx, fm, "Trimesh")
     if mesh is not None:
         check_aabb(run, hx, mesh, "Trimesh")
         check_obb(run, hx, mesh, "Trimesh")
@@ -809,6 +1004,140 @@ def run_mesh_history(run, mesh, cls, xf):
         _v(run, cx0, "history route=Trimesh sym=exception:%s" % type(e).__name__, "a bounding query raised in a move / copy history: %r" % (e,), cx0.wit())
 
 
+# ------------------------------------------------------------------------------------------
+# primitives: meshes whose bounding volumes may come from their parameters, not their facets
+
+
+PRIMITIVE_KINDS = ("Box", "Cylinder", "Capsule", "Sphere", "Extrusion")
+PLACEMENTS = ("rigid", "mirrored_matrix", "mirrored_scale", "scaled")
+
+
+def primitive_spec(rng, kind=None, placement=None):
+    """One random primitive as a JSON-able spec: kind, parameters, placement history."""
+    kind = kind or PRIMITIVE_KINDS[int(rng.integers(len(PRIMITIVE_KINDS)))]
+    if kind == "Box":
+        params = {"extents": rng.uniform(0.5, 3.0, size=3).tolist()}
+    elif kind == "Cylinder":
+        params = {"radius": float(rng.uniform(0.3, 1.5)), "height": float(rng.uniform(0.5, 4.0)), "sections": int(rng.integers(6, 14))}
+    elif kind == "Capsule":
+        params = {"radius": float(rng.uniform(0.3, 1.0)), "height": float(rng.uniform(0.5, 3.0)), "sections": int(rng.integers(5, 8))}
+    elif kind == "Sphere":
+        params = {"radius": float(rng.uniform(0.3, 2.0)), "subdivisions": int(rng.integers(0, 2))}
+    else:
+        # an L, a triangle or a convex polygon, counter-clockwise
+        shape = int(rng.integers(3))
+        if shape == 0:
+            a, b, c = rng.uniform(0.5, 2.0, size=3)
+            poly = [[0, 0], [a + b, 0], [a + b, c], [a, c], [a, c + b], [0, c + b]]
+        elif shape == 1:
+            poly = [[0, 0], [float(rng.uniform(1, 3)), float(rng.uniform(-0.5, 0.5))], [float(rng.uniform(0, 2)), float(rng.uniform(1, 3))]]
+        else:
+            ang = np.sort(rng.uniform(0, 2 * np.pi, size=int(rng.integers(4, 9))))
+            poly = (np.column_stack([np.cos(ang), np.sin(ang)]) * rng.uniform(0.5, 2.0, size=2)).tolist()
+        params = {"polygon": np.asarray(poly, dtype=np.float64).tolist(), "height": float(rng.uniform(0.5, 3.0))}
+    # placement history
+    M = np.eye(4)
+    M[:3, :3] = rand_rot(rng)
+    M[:3, 3] = rng.normal(size=3) * float(rng.choice([1.0, 10.0, 1e5]))
+    hist = [["apply_transform", M.tolist()]]
+    placement = placement or PLACEMENTS[int(rng.integers(len(PLACEMENTS)))]
+    if placement == "mirrored_matrix":
+        u = rng.normal(size=3)
+        u /= np.linalg.norm(u)
+        H = np.eye(4)
+        H[:3, :3] -= 2 * np.outer(u, u)  # mirror in a plane through the origin
+        hist.insert(int(rng.integers(2)), ["apply_transform", H.tolist()])
+    elif placement == "mirrored_scale":
+        v = [1.0, 1.0, 1.0]
+        v[int(rng.integers(3))] = -1.0
+        hist.insert(int(rng.integers(2)), ["apply_scale", v])
+    elif placement == "scaled":
+        if kind == "Extrusion":
+            placement = "rigid"  # apply_transform documents that an Extrusion is not re-scaled
+        else:
+            hist.append(["apply_scale", float(rng.choice([1e-2, 0.5, 3.0, 1e3]))])
+    return {"kind": kind, "params": params, "history": hist, "placement": placement}
+
+
+def far_round_spec(rng):
+    """
+    A capsule (two hemispheres of ~1000 co-spherical vertices each) placed 3e3 .. 2e5 from the
+    origin: the translation rounds the vertices off their spheres by ~1e-12 of the radius.
+    """
+    M = np.eye(4)
+    M[:3, :3] = rand_rot(rng)
+    u = rng.normal(size=3)
+    M[:3, 3] = u / np.linalg.norm(u) * 10 ** float(rng.uniform(3.5, 5.3))
+    return {"kind": "Capsule", "params": {"radius": float(rng.uniform(0.3, 1.0)), "height": float(rng.uniform(0.5, 3.0))},
+            "history": [["apply_transform", M.tolist()]], "placement": "rigid", "queries": "sphere"}
+
+
+def build_primitive(spec):
+    import trimesh
+
+    kind, pr = spec["kind"], dict(spec["params"])
+    if kind == "Extrusion":
+        from shapely.geometry import Polygon
+
+        pr["polygon"] = Polygon(pr["polygon"])
+    prim = getattr(trimesh.primitives, kind)(**pr)
+    for op, arg in spec["history"]:
+        getattr(prim, op)(np.asarray(arg, dtype=np.float64) if op == "apply_transform" else arg)
+    return prim
+
+
+def run_primitive(run, spec):
+    kind = spec["kind"]
+    try:
+        prim = build_primitive(spec)
+        P = np.asarray(prim.vertices, dtype=np.float64).copy()
+    except Exception as e:  # noqa
+        run.violation("construct primitive=%s placement=%s sym=exception:%s" % (kind, spec["placement"], type(e).__name__),
+                      "building / placing the primitive raised %r" % (e,), {"prim": spec})
+        return
+    # the placement is part of the route of the oriented box (the one query whose answer is a
+    # frame); the other queries are keyed by the kind of primitive alone
+    plain = kind
+    route = kind + ":mirrored" if spec["placement"].startswith("mirrored") else kind
+    cx = Ctx(P, "primitive:" + kind, spec["placement"], 3)
+    cx.extra = {"prim": spec}
+    run.count("primitives")
+    run.state("primitive_placement", (kind, spec["placement"]))
+    if spec.get("queries") == "sphere":
+        # round meshes far from the origin: the bounding sphere alone (see far_round_spec)
+        check_sphere(run, cx, prim, plain, minimal=False)
+        return
+    # hull of the primitive (the capsule's ~2000 vertices make the python edge loops slow: the
+    # hull of meshes of that size is judged by the Trimesh routes)
+    try:
+        if len(P) <= 500:
+            check_hull(run, cx, prim.convex_hull, plain)
+    except Exception as e:  # noqa
+        _v(run, cx, "hull route=%s 3d sym=exception:%s" % (plain, type(e).__name__), "primitive.convex_hull raised %r" % (e,), cx.wit(route=plain))
+    # axis aligned box: containment (a Sphere reports the box of the exact sphere)
+    run.case(cx.tag("aabb:" + plain), P)
+    try:
+        b = np.asarray(prim.bounds, dtype=np.float64)
+        slack = 1e-9 * cx.ext + 1e-12 * cx.off
+        if b.shape != (2, 3) or (P < b[0] - slack).any() or (P > b[1] + slack).any():
+            _v(run, cx, "aabb route=%s fn=bounds sym=not_containing" % plain, "a vertex of the primitive lies outside its bounds", cx.wit(route=plain, observed=b.tolist()))
+        box = prim.bounding_box
+        judge_obb(run, cx, np.linalg.inv(np.asarray(box.primitive.transform)), np.asarray(box.primitive.extents), plain + ".bounding_box", exact=False)
+        if np.abs(np.asarray(box.primitive.transform)[:3, :3] - np.eye(3)).max() > 0:
+            _v(run, cx, "aabb route=%s fn=bounding_box sym=rotated" % plain, "axis aligned box has a rotation", cx.wit(route=plain))
+    except Exception as e:  # noqa
+        _v(run, cx, "aabb route=%s sym=exception:%s" % (plain, type(e).__name__), "axis aligned bounds raised %r" % (e,), cx.wit(route=plain))
+    # oriented box: the primitive's own property, the generic function, apply_obb
+    exact = kind != "Sphere"
+    check_obb(run, cx, prim, route + ".primitive", exact=exact)
+    check_obb(run, cx, prim, route)
+    if exact:
+        check_apply_obb(run, cx, prim, route)
+    check_sphere(run, cx, prim, plain, minimal=False)
+    check_cylinder(run, cx, prim, plain)
+    check_primitive(run, cx, prim, route, exact=exact)
+
+
 def xform(P, s, t):
     return P * s + t * np.array([1.0, -1.0, 0.5][: P.shape[1]])
 
@@ -818,7 +1147,35 @@ def degenerate_clouds(rng):
     yield "planar_rot", np.column_stack([rng.random((12, 2)), np.zeros(12)]) @ rand_rot(rng).T
     yield "collinear", np.outer(np.linspace(0, 1, 7), [1.0, 2.0, 3.0])
     yield "three_points", rng.random((3, 3))
+    yield "three_points", rng.normal(size=(3, 3)) * 2.0
+    yield "four_planar", np.column_stack([rng.random((4, 2)), np.zeros(4)]) @ rand_rot(rng).T
+    yield "two_points", rng.random((2, 3))
     yield "duplicates", np.tile(rng.random((1, 3)), (6, 1))
+
+
+def run_degenerate(run, rng, xforms):
+    """
+    Input that does not span 3-D, at every placement of the quantifier.  The library may refuse
+    a class of such input; what it answers for a shape at scale 1 about the origin it must also
+    answer for the same shape scaled / translated (base_ok), and every answer is judged.
+    """
+    from trimesh import bounds, nsphere
+
+    for cls, P0 in degenerate_clouds(rng):
+        ok = []
+        for fam, fn in (("obb", lambda: bounds.oriented_bounds(P0.copy())),
+                        ("sphere", lambda: nsphere.minimum_nsphere(P0.copy())),
+                        ("cylinder", lambda: bounds.minimum_cylinder(P0.copy()))):
+            try:
+                fn()
+                ok.append(fam)
+            except Exception:  # noqa
+                pass
+        run.state("degenerate_answered_at_base", (cls, tuple(ok)))
+        for xf, s, t in xforms:
+            run_cloud3(run, xform(P0, s, t), "degenerate:" + cls, xf, heavy=run.tier != "quick", base_ok=() if (s, t) == (1.0, 0.0) else ok)
+            if run.out_of_time(0.95):
+                return
 
 
 def workload(run):
@@ -828,13 +1185,26 @@ def workload(run):
     oracle_selfcheck(run)
     quick = run.tier == "quick"
     idx = 0
-    # (1) every class x transform once (3-D and 2-D), sharded
+    # (0) primitives: every kind plainly placed (rigid / re-scaled) and mirrored (by a matrix / by a
+    # negative scale factor)
+    for kind in PRIMITIVE_KINDS:
+        for pair in (("rigid", "scaled"), ("mirrored_matrix", "mirrored_scale")):
+            idx += 1
+            placement = pair[int(rng.integers(2))]
+            if run.mine(idx) and not run.out_of_time(0.2):
+                run_primitive(run, primitive_spec(rng, kind, placement))
+    for _ in range(8):
+        idx += 1
+        if run.mine(idx) and not run.out_of_time(0.25):
+            run_primitive(run, far_round_spec(rng))
+    # (1) every class x transform once (3-D and 2-D), sharded; at the first placement of a class
+    # the hull is also asked for with every other option value
     for cls in CLOUD_CLASSES:
-        for xf, s, t in XFORMS:
+        for xi, (xf, s, t) in enumerate(XFORMS):
             idx += 1
             if not run.mine(idx):
                 continue
-            run_cloud3(run, xform(base_cloud(rng, cls, 3), s, t), cls, xf, heavy=(idx % 3 == 0))
+            run_cloud3(run, xform(base_cloud(rng, cls, 3), s, t), cls, xf, heavy=(idx % 3 == 0), options=99 if xi == 0 else 0)
             run_cloud2(run, xform(base_cloud(rng, cls, 2), s, t), cls, xf)
         if run.out_of_time(0.45):
             run.count("enumeration_cut_short")
@@ -874,8 +1244,7 @@ def workload(run):
         run_mesh_history(run, m, "creation:" + name, xf)
     # (3) degenerate input: may be refused, never judged for fullness
     if run.mine(idx + 1):
-        for cls, P in degenerate_clouds(rng):
-            run_cloud3(run, P, "degenerate:" + cls, "s=1:t=0", heavy=False)
+        run_degenerate(run, rng, XFORMS)
     check_is_convex_known(run, rng)
     # (4) random classes / transforms until the budget is used
     n = 0
@@ -886,9 +1255,14 @@ def workload(run):
         if n % 3:
             run_cloud2(run, xform(base_cloud(rng, cls, 2), s, t), cls, xf)
             run_cloud2(run, xform(base_cloud(rng, "random" if n % 2 else "small_n", 2), s, t), "random", xf)
-        run_cloud3(run, xform(base_cloud(rng, cls, 3), s, t), cls, xf, heavy=(n % 6 == 0))
+        run_cloud3(run, xform(base_cloud(rng, cls, 3), s, t), cls, xf, heavy=(n % 6 == 0), options=2 if n % 4 == 0 else 0)
+        if n % 5 == 0:
+            run_primitive(run, primitive_spec(rng))
+            run_primitive(run, far_round_spec(rng))
         if n % 10 == 0:
             check_is_convex_known(run, rng)
+        if n % 40 == 0:
+            run_degenerate(run, rng, XFORMS)
 
 
 def replay(run, case):
@@ -900,8 +1274,11 @@ def replay(run, case):
         if bool(m.is_convex) != bool(case["expected"]):
             run.violation("hull fn=is_convex sym=%s" % ("convex_reported_non_convex" if case["expected"] else "non_convex_reported_convex"), "is_convex disagrees", case)
         return
+    if case.get("prim"):
+        run_primitive(run, case["prim"])
+        return
     P = np.array(case["points"], dtype=np.float64)
     if case.get("d", 3) == 2:
         run_cloud2(run, P, case.get("cls", "replay"), case.get("xf", "replay"))
     else:
-        run_cloud3(run, P, case.get("cls", "replay"), case.get("xf", "replay"), heavy=True)
+        run_cloud3(run, P, case.get("cls", "replay"), case.get("xf", "replay"), heavy=True, options=99, base_ok=case.get("base_ok", ()))
